@@ -8,6 +8,7 @@ import (
 	nurl "net/url"
 	"strconv"
 	"sync"
+	"sync/atomic"
 	"time"
 
 	"github.com/zeebo/bencode"
@@ -159,7 +160,9 @@ func announceHTTP(ctx context.Context, protocol string, tracker *HTTP,
 				retry = time.Duration(min) * time.Minute
 			}
 		}
-		tracker.interval = retry
+		// we may be running concurrently with the announce over
+		// the other address family
+		atomic.StoreInt64((*int64)(&tracker.interval), int64(retry))
 		err = errors.New(reply.FailureReason)
 		return 0, err
 	}
